@@ -233,6 +233,17 @@ type Update struct {
 	Attempts []AttemptSpec
 }
 
+// HasBadUTF8 reports whether the update, applied to an action of the plugin kind, writes an attempt that holds a string
+// with bytes that are not valid UTF-8 (see AttemptSpec.BadUTF8).
+func (u Update) HasBadUTF8(plugin int) bool {
+	for _, at := range u.Attempts {
+		if k, _ := at.BadPlace(plugin); k != BadUTF8None {
+			return true
+		}
+	}
+	return false
+}
+
 // ApplyTo writes the update into obj the way the engine mutates an object before it calls Update*: only the object's own
 // state fields (status, start, end; reason for plans; attempts for actions) change. The ETag, which belongs to the
 // storage layer, is kept.
